@@ -343,6 +343,11 @@ EXPR_TOKENS = [
     "!=", "<>", "<", ">", "<=", ">=", "and", "or", "not", "ceil", "trunc",
     "floor", "abs", "sqrt", "exp", "ln", "sin", "cos", "tan", "acos", "asin",
     "atan", ".", ",", "x", "1000", "-", "(", ")", " ",
+    # large magnitudes: float overflow to inf / nan happens without a Python
+    # exception (1.5e200 * 1.5e200), huge ints only fail when formatted
+    "1.5e200", "1e308", "9.9e307", "1.5e200 * 1.5e200", "1e400 * 1e400",
+    "200", "308", "400", "4300", "1e4000", "2.5", "-1.5e200", "1e-320",
+    "(1e308 + 1e308)", "(1e308 * 10 - 1e308 * 10)", "1e400 ^ 11",
 ]
 
 
@@ -531,7 +536,7 @@ def shard_pfn(idx, nshards, seed, n_random, known, quick):
     # #expr / #ifexpr operator soup
     soup = st.tuples(st.sampled_from(["#expr", "#ifexpr", "plural"]),
                      st.lists(st.sampled_from(EXPR_TOKENS), min_size=1,
-                              max_size=8))
+                              max_size=12))
 
     def body2(case):
         fn, toks = case
